@@ -41,3 +41,4 @@ open A2l.IncW
 open A2l.Tree
 #print axioms comment_mark_is_token_file
 #print axioms included_comment_not_written
+#print axioms directive_at_first_element
